@@ -11,6 +11,7 @@ from ..paths import enumerate_paths
 from ..report import ALLOWED, DISCHARGED, VIOLATED, RuleResult
 from ..util import enclosing_loop, names_in
 from ..util import follows_unconditionally as follows_unconditionally_
+from ..util import has_escape as has_escape_
 
 ST = "json_to_models/models/structure.py"
 PLACERS = {"append": 0, "insert": 1, "insert_before": 0, "insert_after": 0}
@@ -107,44 +108,85 @@ def rule_lay2(ctx: Ctx) -> RuleResult:
     rr = RuleResult("LAY-2", "one generator and one class text per structure entry; nested classes are forwarded", floor=4)
     prog = ctx.prog
     g = prog.func("json_to_models/models/base.py", "_generate_code")
-    loops = [n for n in walk_no_nested(g.node) if isinstance(n, ast.For)]
-    # loop 1 over structure: recursion on data["nested"] + one generator construction appended
+    mod = g.module
+    # helper functions of the renderer: module-level functions reachable from _generate_code inside base.py
+    helpers = [g]
+    stack = [g]
+    while stack:
+        f0 = stack.pop()
+        for n in walk_no_nested(f0.node):
+            if isinstance(n, ast.Call) and isinstance(n.func, ast.Name) and n.func.id in mod.functions:
+                h = mod.functions[n.func.id]
+                if h not in helpers and h.name not in ("generate_code", "template", "sort_kwargs", "prepare_label"):
+                    helpers.append(h)
+                    stack.append(h)
+
+    def binder_of(f0, node):
+        """(iterated expression, target, filtered?, conditional?) of the innermost loop / comprehension around node."""
+        p = f0.module.parents.get(node)
+        cond = False
+        while p is not None and p is not f0.node:
+            if isinstance(p, (ast.If, ast.IfExp, ast.Try, ast.While)):
+                cond = True
+            if isinstance(p, (ast.ListComp, ast.GeneratorExp)):
+                gen = p.generators[0]
+                return gen.iter, gen.target, bool(gen.ifs) or len(p.generators) > 1, cond
+            if isinstance(p, ast.For):
+                return p.iter, p.target, has_escape_(p.body), cond
+            p = f0.module.parents.get(p)
+        return None, None, False, cond
+
+    # (1) one generator per structure entry
+    ctors = [(f0, n) for f0 in helpers for n in walk_no_nested(f0.node) if isinstance(n, ast.Call) and isinstance(n.func, ast.Name)
+             and n.func.id in f0.params and "generator" in n.func.id and n.args and norm(n.args[0]).endswith("['model']")]
     rr.instances += 1
-    l1 = next((l for l in loops if norm(l.iter) == g.params[0]), None)
     ok = False
-    why = "loop over the structure not found"
-    if l1 is not None:
-        dv = norm(l1.target)
-        rec = [c for s in l1.body for c in ast.walk(s) if isinstance(c, ast.Call) and norm(c.func) == g.name
-               and c.args and norm(c.args[0]) == f"{dv}['nested']"]
-        ctor = [c for s in l1.body for c in ast.walk(s) if isinstance(c, ast.Call) and norm(c.func) == g.params[1]
-                and c.args and norm(c.args[0]) == f"{dv}['model']"]
-        apps = [c for s in l1.body for c in ast.walk(s) if isinstance(c, ast.Call) and isinstance(c.func, ast.Attribute)
-                and c.func.attr == "append" and any(any(x is k for x in ast.walk(c)) for k in ctor)]
-        paths = enumerate_paths(l1.body)
-        fwd = bool(rec) and [norm(a) for a in rec[0].args[1:3]] == g.params[1:3]
-        ok = len(rec) == 1 and len(ctor) == 1 and len(apps) == 1 and len(paths) == 1 and fwd
-        why = f"recursions={len(rec)} generators={len(ctor)} appended={len(apps)} paths={len(paths)} " \
-              f"generator class and options forwarded to the recursion={fwd}"
-    rr.ob(g.relpath, g.qualname, "for data in structure: ...", "for every structure entry: its nested entries are rendered "
-          "recursively and exactly one generator is created for its model, unconditionally", DISCHARGED if ok else VIOLATED, why,
-          g.node.lineno)
-    # loop 2 over generators: one generate() per generator, its text appended once
+    why = f"{len(ctors)} generator constructions found"
+    if len(ctors) == 1:
+        f0, c = ctors[0]
+        it, tg, filt, cond = binder_of(f0, c)
+        dv = norm(c.args[0])[:-len("['model']")]
+        star = any(kw.arg is None for kw in c.keywords)
+        ok = it is not None and norm(it) == f0.params[0] and norm(tg) == dv and not filt and not cond and star
+        why = f"in {f0.name}: iterates `{norm(it) if it is not None else '?'}`, filtered={filt}, conditional={cond}, options forwarded={star}"
+        # (1b) recursion over the entry's nested list with the same generator class and options
+        recs = [n for n in walk_no_nested(f0.node) if isinstance(n, ast.Call) and isinstance(n.func, ast.Name)
+                and n.func.id in mod.functions and n.args and norm(n.args[0]) == f"{dv}['nested']"]
+        fwd = bool(recs) and all([norm(a) for a in r.args[1:3]] == f0.params[1:3] for r in recs)
+        if not fwd:
+            ok = False
+            why += "; the recursion over entry['nested'] does not forward the generator class and its options (nested classes " \
+                   "would be rendered with default options)"
+    rr.ob(g.relpath, g.qualname, "one generator per structure entry", "for every structure entry exactly one generator is "
+          "created for its model, unconditionally, with the configured options - at every nesting level", DISCHARGED if ok else VIOLATED,
+          why, g.node.lineno)
+    # (2) each generator renders once, with the texts of its nested classes, and its text is appended once
+    renders = [(f0, n) for f0 in helpers for n in walk_no_nested(f0.node) if isinstance(n, ast.Call)
+               and isinstance(n.func, ast.Attribute) and n.func.attr == "generate"]
     rr.instances += 1
-    l2 = next((l for l in loops if l is not l1 and "generators" in norm(l.iter)), None)
     ok = False
-    why = "loop over the generators not found"
-    if l2 is not None:
-        gens = [c for s in l2.body for c in ast.walk(s) if isinstance(c, ast.Call) and isinstance(c.func, ast.Attribute)
-                and c.func.attr == "generate"]
-        cls_app = [c for s in l2.body for c in ast.walk(s) if isinstance(c, ast.Call) and isinstance(c.func, ast.Attribute)
-                   and c.func.attr == "append" and "class" in norm(c.func.value)]
-        nested_ok = bool(gens) and gens[0].args and isinstance(l2.target, ast.Tuple) and \
-            norm(gens[0].args[0]) == norm(l2.target.elts[1])
-        ok = len(gens) == 1 and len(cls_app) == 1 and len(enumerate_paths(l2.body)) == 1 and nested_ok
-        why = f"generate calls={len(gens)} class appends={len(cls_app)} nested texts passed={nested_ok}"
-    rr.ob(g.relpath, g.qualname, "for gen, nested_classes in generators: ...", "every generator renders once, receives the "
-          "texts of its nested classes, and its class text is appended once", DISCHARGED if ok else VIOLATED, why, g.node.lineno)
+    why = f"{len(renders)} render calls found"
+    if len(renders) == 1:
+        f0, c = renders[0]
+        it, tg, filt, cond = binder_of(f0, c)
+        nested_arg = norm(c.args[0]) if c.args else None
+        # the nested texts come from rendering the nested entries (loop target component or result of the recursion)
+        from_target = tg is not None and nested_arg in names_in(tg)
+        from_rec = any(isinstance(n, ast.Assign) and isinstance(n.targets[0], ast.Tuple) and nested_arg in names_in(n.targets[0])
+                       and isinstance(n.value, ast.Call) and isinstance(n.value.func, ast.Name) and n.value.func.id in mod.functions
+                       for n in walk_no_nested(f0.node))
+        st_ = f0.module.parents.get(c)
+        res = None
+        while st_ is not None and not isinstance(st_, ast.stmt):
+            st_ = f0.module.parents.get(st_)
+        if isinstance(st_, ast.Assign) and isinstance(st_.targets[0], ast.Tuple):
+            res = norm(st_.targets[0].elts[1])
+        apps = [n for n in walk_no_nested(f0.node) if isinstance(n, ast.Call) and isinstance(n.func, ast.Attribute)
+                and n.func.attr == "append" and n.args and norm(n.args[0]) == res]
+        ok = (from_target or from_rec) and not filt and not cond and len(apps) == 1
+        why = f"in {f0.name}: nested texts passed={from_target or from_rec}, filtered={filt}, conditional={cond}, appended {len(apps)}x"
+    rr.ob(g.relpath, g.qualname, "one class text per generator", "every generator renders once, receives the texts of its "
+          "nested classes, and its class text is appended once", DISCHARGED if ok else VIOLATED, why, g.node.lineno)
     # generate_code joins exactly those classes
     gc = prog.func("json_to_models/models/base.py", "generate_code")
     rr.instances += 1
@@ -256,4 +298,86 @@ def rule_imp4(ctx: Ctx) -> RuleResult:
                       f"{acc}.extend({part})" if ok else (f"the result is unpacked into the accumulator `{acc}` itself: imports "
                       f"collected so far (earlier siblings' nested classes) are discarded" if part == acc else
                       f"`{part}` is never added to `{acc}`: names used by those classes are not imported"), n.lineno)
+    return rr
+
+
+def rule_nameord1(ctx: Ctx) -> RuleResult:
+    """Every generator (whose constructor normalises the model's class name) exists before any class text is rendered."""
+    rr = RuleResult("NAMEORD-1", "all class names are normalised before the first class is rendered", floor=1)
+    prog = ctx.prog
+    mod = prog.module("json_to_models/models/base.py")
+    entry = prog.func("json_to_models/models/base.py", "_generate_code")
+    # the constructor does rename the model (otherwise there is nothing to order)
+    init = prog.func("json_to_models/models/base.py", "GenericModelCodeGenerator.__init__")
+    renames = any(isinstance(n, ast.Call) and norm(n.func).endswith("set_raw_name") for n in walk_no_nested(init.node))
+    funcs = [f for f in mod.all_funcs if f.cls is None and f.parent is None]
+
+    def direct(f):
+        c = r = False
+        for n in walk_no_nested(f.node):
+            if isinstance(n, ast.Call):
+                if isinstance(n.func, ast.Name) and n.func.id in f.params and "generator" in n.func.id:
+                    c = True
+                if isinstance(n.func, ast.Attribute) and n.func.attr == "generate":
+                    r = True
+        return c, r
+
+    lab = {f.key: set() for f in funcs}
+    for f in funcs:
+        c, r = direct(f)
+        if c:
+            lab[f.key].add("C")
+        if r:
+            lab[f.key].add("R")
+    changed = True
+    while changed:
+        changed = False
+        for f in funcs:
+            for n in walk_no_nested(f.node):
+                if isinstance(n, ast.Call) and isinstance(n.func, ast.Name):
+                    g = mod.functions.get(n.func.id)
+                    if g is not None and not lab[g.key] <= lab[f.key]:
+                        lab[f.key] |= lab[g.key]
+                        changed = True
+    # sites of the entry function, in evaluation order
+    sites = []
+    for n in walk_no_nested(entry.node):
+        if isinstance(n, ast.Call):
+            ks = set()
+            if isinstance(n.func, ast.Name):
+                g = mod.functions.get(n.func.id)
+                if g is not None:
+                    ks = set(lab[g.key]) if g is not entry else {"C", "R"} & lab[entry.key]
+                if n.func.id in entry.params and "generator" in n.func.id:
+                    ks = {"C"}
+            if isinstance(n.func, ast.Attribute) and n.func.attr == "generate":
+                ks = {"R"}
+            if ks:
+                sites.append((n, ks))
+    sites.sort(key=lambda x: (x[0].lineno, x[0].col_offset))
+    rr.instances += 1
+    st = ("when a class is rendered, every model it can refer to (its enclosing class included) already carries its final, "
+          "sanitised name; otherwise a reference is emitted with the raw name and a second rendering differs from the first")
+    problems = []
+    if not renames:
+        rr.ob(entry.relpath, entry.qualname, "GenericModelCodeGenerator.__init__", st, DISCHARGED,
+              "the constructor no longer renames models: no ordering needed", entry.node.lineno)
+        return rr
+    for n, ks in sites:
+        if ks == {"C", "R"}:
+            problems.append(f"`{norm(n)[:50]}` (line {n.lineno}) both constructs generators and renders classes: nested classes "
+                            f"are rendered before the generator of their enclosing class exists")
+    first_r = next((i for i, (n, ks) in enumerate(sites) if "R" in ks), None)
+    for i, (n, ks) in enumerate(sites):
+        if "C" in ks and first_r is not None and i > first_r:
+            problems.append(f"generator construction `{norm(n)[:40]}` (line {n.lineno}) follows rendering")
+    # construction and rendering in the same loop body interleave per entry
+    for lp in walk_no_nested(entry.node):
+        if isinstance(lp, ast.For):
+            inside = [(n, ks) for n, ks in sites if any(n is x for x in ast.walk(lp))]
+            if any("C" in ks for _, ks in inside) and any("R" in ks for _, ks in inside):
+                problems.append(f"the loop at line {lp.lineno} constructs and renders in the same iteration")
+    rr.ob(entry.relpath, entry.qualname, " ; ".join(f"{norm(n.func)}{sorted(ks)}" for n, ks in sites)[:120], st,
+          VIOLATED if problems else DISCHARGED, "; ".join(dict.fromkeys(problems)) if problems else
+          "construction of all generators precedes all rendering", entry.node.lineno)
     return rr
